@@ -507,14 +507,19 @@ macro_rules! impl_io_uring {
                 $($arg: $arg_type),*
             ) -> std::io::Result<Arc<(Mutex<Option<c_longlong>>, Condvar)>> {
                 let token = EventLoop::token(SyscallName::$syscall);
-                self.operator.$syscall(token, $($arg, )*)?;
-                #[cfg(feature = "verif")]
-                crate::verif::pause("uring:after_submit", token);
+                // register for the completion before the request can complete,
+                // otherwise a fast completion finds nobody and is dropped
                 let arc = Arc::new((Mutex::new(None), Condvar::new()));
                 assert!(
                     self.syscall_wait_table.insert(token, arc.clone()).is_none(),
                     "The previous token was not retrieved in a timely manner"
                 );
+                if let Err(e) = self.operator.$syscall(token, $($arg, )*) {
+                    _ = self.syscall_wait_table.remove(&token);
+                    return Err(e);
+                }
+                #[cfg(feature = "verif")]
+                crate::verif::pause("uring:after_submit", token);
                 Ok(arc)
             }
         }
